@@ -1,7 +1,6 @@
 //! Shared helpers of the conformance harness.  No property logic lives here: only
 //! I/O (ndjson), deterministic RNG, panic capture, a watchdog and the exact / monotone
 //! projections of floats to integers described in DESIGN.md §2.5.
-#![allow(dead_code)]
 
 use rand::rngs::StdRng;
 use rand::SeedableRng;
